@@ -402,7 +402,9 @@ class FutureBump:
     def gen(self, seed, index, tier):
         rng = runner.rng_for(seed, self.name, index)
         core = COHERENT[index % len(COHERENT)]
-        shape = rng.choice(["MAJOR.%s", "%s.PATCH", "v%s.INC0", "%s.BUILD", "MAJOR.%s.INC1"])
+        # (the last two: date-stamped builds of a SemVer project - all three SemVer parts *and* calendar parts)
+        shape = rng.choice(["MAJOR.%s", "%s.PATCH", "v%s.INC0", "%s.BUILD", "MAJOR.%s.INC1", "MAJOR.MINOR.PATCH.%s",
+                            "MAJOR.MINOR.PATCH-%s"])
         pattern = shape % core
         year = rng.randint(2001, 2097)
         r = rng.random()
@@ -422,7 +424,9 @@ class FutureBump:
         if old.year > 2098:
             old = dt.date(2098, 12, 28)
         flags = {}
-        if "MAJOR" in pattern:
+        if "MINOR" in pattern:
+            flags[rng.choice(["major", "minor", "patch"])] = True
+        elif "MAJOR" in pattern:
             flags["major"] = True
         elif "PATCH" in pattern:
             flags["patch"] = True
@@ -437,7 +441,7 @@ class FutureBump:
         fields = rp.fields_of(tree)
         old = dt.date.fromisoformat(case["old"])
         new = dt.date.fromisoformat(case["new"])
-        st = rp.state_for_date(tree, old, {"major": 3, "patch": 4, "inc0": 2, "inc1": 5, "bid": "1041"})
+        st = rp.state_for_date(tree, old, {"major": 3, "minor": 1, "patch": 4, "inc0": 2, "inc1": 5, "bid": "1041"})
         st = {f: st.get(f) for f in fields}
         text = rp.render(tree, st)
         from gen import patterns as gpat
